@@ -628,6 +628,12 @@ def execEvs (d : Dfsr) (st : Store) : List Ev → Run → Except Err Run
     | .error err => .error err
     | .ok r' => execEvs d st es r'
 
+/-- `theFrSl or slice(0, self._rle.totalFrames(), 1)` (a slice object is always true) -/
+def slOrAll (sl : Option Sl) (total : Nat) : Sl :=
+  match sl with
+  | some s => s
+  | none => ⟨0, total, 1⟩
+
 /-- `setFrameSet(theFile, theFrSl, theChList)`: new log pass state and the file operations performed (or the
 exception).  The state is returned in the error case too: `del self._frameSet` followed by a failing `FrameSet(...)`
 leaves the object without the attribute, and every later call then raises `AttributeError`. -/
@@ -635,7 +641,7 @@ def setFrameSet (lp : LogPass) (st : Store) (sl : Option Sl) (chList : Option (L
     LogPass × Except Err (List Op) :=
   let total := rle01Total lp.rle
   if total = 0 then (lp, .error .logPass) else
-  let mySl : Sl := match sl with | some s => s | none => ⟨0, total, 1⟩
+  let mySl : Sl := slOrAll sl total
   if lp.fsDeleted then (lp, .error .attributeError) else
   match FrameSet.new lp.dfsr mySl chList lp.xAxisIndex with
   | .error e => ({ lp with frameSet := none, fsDeleted := true }, .error e)
